@@ -42,8 +42,7 @@ def b(x):
 
 
 def cfg_to_coq(I, c):
-    days = coq_list(["{| p_ns := %s; p_disk := %s; p_conv := %s |}" % (coq_Z(p["ns"]), I.s(p["disk"]), coq_Z(p["conv"]))
-                     for p in c["days"]])
+    days = coq_list(["{| p_ns := %s; p_disk := %s |}" % (coq_Z(p["ns"]), I.s(p["disk"])) for p in c["days"]])
     return "{| cluster := %s; distributed := %s; days := %s; drop_days := %s; storage_policy := %s |}" % (
         I.s(c["cluster"]), b(c["dist"]), days, coq_Z(c["drop"]), I.s(c["policy"]))
 
